@@ -17,6 +17,7 @@ class Gen:
         self.multibyte = multibyte
         self.looks = looks
         self.allow_empty = False
+        self.bytes_mode = False
 
     def atom_char(self):
         r = self.rng
@@ -26,6 +27,8 @@ class Gen:
 
     def klass(self):
         r = self.rng
+        if self.bytes_mode and r.random() < 0.5:
+            return r.choice(['(?-u:[^a])', '(?-u:[\\x80-\\xff])', '(?-u:[^\\x00-\\x20])', '(?s-u:.)', '(?-u:[\\x00-\\x7f])', '(?-u:[^ab0])', '(?-u:[\\xc0-\\xff])'])
         k = r.random()
         if k < 0.5:
             a, b = sorted(r.sample('abcdefg', 2))
@@ -88,6 +91,7 @@ def rust_str(s):
 def random_definition(rng, name, forced_accept=True, looks=True, multibyte=True, n_leaves=None, bytes_mode=False):
     g = Gen(rng, multibyte=multibyte and not bytes_mode, looks=looks)
     g.allow_empty = not forced_accept
+    g.bytes_mode = bytes_mode
     n = n_leaves or rng.randint(2, 6)
     variants = []
     prios = list(range(1, 4 * n + 1))
